@@ -448,7 +448,7 @@ func TestC01(t *testing.T) {
 		return
 	}
 
-	search(t, rec, "history", budget(1000, 32000), 40, func(rt *rapid.T) {
+	search(t, rec, "history", budget(1000, 200000), 40, func(rt *rapid.T) {
 		chunk := rapid.SampledFrom([]int64{1, 1, 2, 3, 16, 1024}).Draw(rt, "chunkSize")
 		W := rapid.Int64Range(2, 12).Draw(rt, "window")
 		C := rapid.Int64Range(2, 8).Draw(rt, "check")
